@@ -129,11 +129,11 @@ def specWindow (symm : Bool) (ps : Pixels) (b : Box) : Pixels :=
 
 /-- dense output: cell `(r,c)` of `coo_matrix(...).toarray()` is the SUM of all emitted entries at that
 coordinate (so a duplicated entry would be visible) -/
-def denseCell (out : Pixels) (b : Box) (r c : Nat) : Int :=
+def cellSum (out : Pixels) (b : Box) (r c : Nat) : Int :=
   ((out.filter fun p => p.i == b.i0 + r && p.j == b.j0 + c).map Px.v).foldl (· + ·) 0
 
-def toDense (out : Pixels) (b : Box) : List (List Int) :=
-  (List.range (b.i1 - b.i0)).map fun r => (List.range (b.j1 - b.j0)).map fun c => denseCell out b r c
+def denseOf (out : Pixels) (b : Box) : List (List Int) :=
+  (List.range (b.i1 - b.i0)).map fun r => (List.range (b.j1 - b.j0)).map fun c => cellSum out b r c
 
 /-- value of the full matrix at `(r,c)`: stored value, else 0 -/
 def fullValue (symm : Bool) (ps : Pixels) (r c : Nat) : Int :=
